@@ -328,6 +328,7 @@ struct Shared {
 
 fn main() {
     proxy_agent_shared::logger::logger_manager::set_logger_level(proxy_agent_shared::logger::LoggerLevel::Error);
+    std::panic::set_hook(Box::new(|_| {})); // subject panics are caught and reported as violations
     let thorough = is_thorough();
     let max_per_section = if thorough { 3 } else { 2 };
     let reflatten = if thorough { 32 } else { 4 };
@@ -441,11 +442,23 @@ fn main() {
                             let reps = if multi_priv && oi == 0 { reflatten } else { 1 };
                             for rep in 0..reps {
                                 local_ord += 1;
-                                let comp = ComputedAuthorizationItem::from_authorization_item(to_item(od, mode, default));
+                                let comp = match std::panic::catch_unwind(std::panic::AssertUnwindSafe(|| ComputedAuthorizationItem::from_authorization_item(to_item(od, mode, default)))) {
+                                    Ok(c) => c,
+                                    Err(_) => {
+                                        viols.push(("decision-function-panicked:flatten".into(), "from_authorization_item panicked".into(), json!({"document": doc_json(od, mode, default)})));
+                                        continue;
+                                    }
+                                };
                                 let mut dec = Vec::with_capacity(claims.len() * uris.len());
                                 for (ci, cl) in claims.iter().enumerate() {
                                     for (ui, u) in uris.iter().enumerate() {
-                                        let got = comp.is_allowed(&mut lg, u.clone(), cl.clone());
+                                        let got = match std::panic::catch_unwind(std::panic::AssertUnwindSafe(|| comp.is_allowed(&mut lg, u.clone(), cl.clone()))) {
+                                            Ok(g) => g,
+                                            Err(_) => {
+                                                viols.push(("decision-function-panicked:is_allowed".into(), format!("is_allowed panicked for caller {} url {}", CALLERS[ci].label, URLS[ui]), json!({"document": doc_json(od, mode, default), "caller": CALLERS[ci].label, "url": URLS[ui], "expected": "a decision", "got": "panic"})));
+                                                false
+                                            }
+                                        };
                                         local_evals += 1;
                                         local_out[got as usize] += 1;
                                         dec.push(got);
